@@ -248,18 +248,18 @@ Proof. exact @get_distance_rejects. Qed.
 Print Assumptions C19_get_distance_rejects_other_shapes.
 
 (* the UNITS table generated from the source converts to metres with the stated factors:
-   metre 1, foot 0.3048 = 381/1250, mile 1609.344 = 201168/125, kilometre 1000; every key is
+   metre 1, foot 0.3048 = 381/1250, mile 1609.344 = 201168/125 (mile, miles, mls, ml), kilometre 1000; every key is
    digit-free (so a unit suffix containing a digit is never accepted) *)
 Definition str (s : list ascii) := s.
 Theorem C19_units_table_factors :
   map (fun k => lookup_unit k units_table_q)
       [ ["m"; "e"; "t"; "e"; "r"]; ["m"; "e"; "t"; "e"; "r"; "s"]; ["m"];
         ["f"; "o"; "o"; "t"]; ["f"; "e"; "e"; "t"]; ["f"; "t"];
-        ["m"; "i"; "l"; "e"; "s"]; ["m"; "l"; "s"]; ["m"; "l"];
+        ["m"; "i"; "l"; "e"]; ["m"; "i"; "l"; "e"; "s"]; ["m"; "l"; "s"]; ["m"; "l"];
         ["k"; "i"; "l"; "o"; "m"; "e"; "t"; "e"; "r"]; ["k"; "i"; "l"; "o"; "m"; "e"; "t"; "e"; "r"; "s"]; ["k"; "m"] ]%char
   = [ Some (1, 1); Some (1, 1); Some (1, 1); Some (381, 1250); Some (381, 1250); Some (381, 1250);
-      Some (201168, 125); Some (201168, 125); Some (201168, 125); Some (1000, 1); Some (1000, 1); Some (1000, 1) ] /\
-  length units_table_q = 12%nat /\
+      Some (201168, 125); Some (201168, 125); Some (201168, 125); Some (201168, 125); Some (1000, 1); Some (1000, 1); Some (1000, 1) ] /\
+  length units_table_q = 13%nat /\
   map fst units_table = map fst units_table_q /\
   Forall (fun kv => no_digits (fst kv)) units_table /\
   default_unit = ["m"; "e"; "t"; "e"; "r"]%char.
